@@ -371,6 +371,8 @@ class ViolationGenerator:
 
         # Apply inline ignore directives via IgnoreChecker
         violations = self._ignore_checker.filter_violations(violations)
+        # File contents are only valid for this run: a reused rule must re-read edited files next time
+        self._ignore_checker.clear_cache()
 
         return violations
 
